@@ -980,6 +980,10 @@ class ExprMixin(CallMixin):
 
     def contains(self, container: V, item: V, text: str) -> bool:
         container = self.resolve_alt(container)
+        if isinstance(container, ObjV):
+            r = self.repo.lookup_method(container.cls, "__contains__")
+            if r is not None:
+                return self.truthy(self.call_function(r[0].module, r[1], [container, item], {}, r[0].qual), "__contains__")
         if isinstance(container, Const) and isinstance(container.v, (tuple, frozenset, list, str, dict)):
             if isinstance(item, Const):
                 try:
@@ -994,6 +998,12 @@ class ExprMixin(CallMixin):
             return False
         if isinstance(container, (PyTuple, PyList)) and not getattr(container, "loop_parts", None):
             for c in container.items:
+                if self.equal(item, c, False, text):
+                    return True
+            return False
+        if isinstance(container, Sym) and container.op == "set" and container.args and isinstance(container.args[0], tuple) and \
+                not any(isinstance(x, Sym) and x.op in ("elemof", "star") for x in container.args[0]):
+            for c in container.args[0]:
                 if self.equal(item, c, False, text):
                     return True
             return False
